@@ -27,7 +27,11 @@ CONSTANTS
   TenRanges <- P_TRng2
   TenDamps <- One1
   TenArms <- One0
+  TenZero <- NoTz
+  SpPairs <- NoSpS
+  SpArms <- One0
   Level = 3
+  Tie = FALSE
   Rand = FALSE
 INVARIANT NegSpringSign
 CHECK_DEADLOCK FALSE
